@@ -5,7 +5,7 @@
 set -e
 V=$(cd "$(dirname "$0")/.." && pwd)
 S=$1; C=$2; T=${3:-quick}
-TAG=$(echo "$S-$C" | tr '/' '-')
+TAG=$(echo "$S-$C" | tr "/" "-")-$$
 WT=/tmp/so-$TAG; VC=/tmp/sovc-$TAG
 git -C /repo worktree remove --force "$WT" >/dev/null 2>&1 || true
 git -C /repo worktree add --detach "$WT" HEAD -q
